@@ -12,7 +12,7 @@ Every run:
 """
 import concurrent.futures, re, struct, sys
 from .. import c10lists
-from ..core import Violation
+from ..core import Violation, modules_for
 
 ENDIANS = [0x00000000, 0x10000000, 0x20000000, 0x30000000]
 CHANS = [0, 1, 2, 3, 8, 9, 256, 257, 1024, 1025]
@@ -232,7 +232,7 @@ def run_checks(ctx):
     if not enum_only:
         changed = ctx.set_generated("FormatLists.lean", c10lists.lean_lists(tabs, info_major, info_sub))
         ctx.notes["generated_lists_changed"] = changed
-        failed = ctx.lean_stage(["SfProps.C10"])
+        failed = ctx.lean_stage(modules_for("C10"))
 
     # ---- 2. enumeration commands, all indices -1 .. count+1 ----
     for key in ("simple", "major", "subtype"):
